@@ -6,6 +6,7 @@ import AnonCreds.Model.Sigma
 import AnonCreds.Model.Verify
 import AnonCreds.Model.Transcript
 import AnonCreds.Model.Range
+import AnonCreds.Model.Issue
 /-
 Line-protocol driver: one request per line on stdin, one reply per line on stdout.
 Unknown or malformed requests answer `bad-op` (never a default value).
@@ -250,6 +251,37 @@ def rangeOp (toks : List String) : Option String :=
     | _, _, _ => none
   | _ => none
 
+/-- validator token: `L.min.max`, `R.min.max` (`_` = absent), `X.<0|1>` (regex verdict), `A.claim!claim…` -/
+def validatorOf? (tok : String) : Option AC.Issue.Validator :=
+  let optNat : String → Option (Option Nat) := fun s => if s = "_" then some none else (s.toNat?).map some
+  let optInt : String → Option (Option Int) := fun s => if s = "_" then some none else (s.toInt?).map some
+  match tok.splitOn "." with
+  | ["L", a, b] => match optNat a, optNat b with
+    | some a, some b => some (.length a b)
+    | _, _ => none
+  | ["R", a, b] => match optInt a, optInt b with
+    | some a, some b => some (.range a b)
+    | _, _ => none
+  | ["X", m] => some (.regex (m = "1"))
+  | ["A", cs] => (if cs = "" then some [] else (cs.splitOn "!").mapM claimOf?).map .anyOne
+  | _ => none
+
+/-- issuance (C15): `is.sign <revoked 0|1> <type~validators;…> <claim;…>` -/
+def issueOp (toks : List String) : Option String :=
+  match toks with
+  | ["is.sign", rev, schema, claims] =>
+    let entries : Option (List AC.Issue.ClaimSchemaM) := if schema = "-" then some [] else (schema.splitOn ";").mapM fun e =>
+      match e.splitOn "~" with
+      | [t, vs] => match typeOf? t, (if vs = "-" then some [] else (vs.splitOn ",").mapM validatorOf?) with
+        | some t, some vs => some ⟨t, vs⟩
+        | _, _ => none
+      | _ => none
+    let cl : Option (List ClaimData) := if claims = "-" then some [] else (claims.splitOn ";").mapM claimOf?
+    match entries, cl with
+    | some entries, some cl => some (if (AC.Issue.signAccepts entries (fun _ => rev = "1") cl).isSome then "ok" else "err")
+    | _, _ => none
+  | _ => none
+
 /-! ### stateful part: issuer registry (C13, C06) -/
 
 structure RegD where
@@ -325,6 +357,9 @@ def answer (d : DState) (line : String) : DState × String :=
   | some r => (d, r)
   | none =>
   match rangeOp toks with
+  | some r => (d, r)
+  | none =>
+  match issueOp toks with
   | some r => (d, r)
   | none =>
   match regOp d toks with
